@@ -133,16 +133,92 @@ pub fn interpret(case: &Case, run: Option<&mut Run>) -> Result<(), String> {
     Ok(())
 }
 
+/// Every `Source` method of a wrapper that reaches `Source` through the Deref blanket impl must answer like its target.
+fn deref_conformance(c: &(Vec<char>, u8, u8), run: Option<&mut Run>) -> Result<(), String> {
+    use logos::Source;
+    let text: String = c.0.iter().collect();
+    let len = text.len();
+    // indices within the source (find_boundary is only defined up to len)
+    let i = (c.1 as usize * (len + 1)) >> 8;
+    let j = i + ((c.2 as usize * (len - i + 1)) >> 8);
+    let target: &str = &text;
+    let boxed: Box<str> = text.clone().into_boxed_str();
+    let rc: std::rc::Rc<str> = text.as_str().into();
+    let refref: &&str = &target;
+    macro_rules! same {
+        ($w:expr, $name:literal) => {{
+            let w = $w;
+            if Source::len(w) != Source::len(target) {
+                return Err(format!("{}: len() {} but the target str has {}", $name, Source::len(w), Source::len(target)));
+            }
+            if Source::is_boundary(w, i) != Source::is_boundary(target, i) {
+                return Err(format!("{}: is_boundary({i}) = {} but the target str says {} (text {text:?})", $name, Source::is_boundary(w, i), Source::is_boundary(target, i)));
+            }
+            if Source::find_boundary(w, i) != Source::find_boundary(target, i) {
+                return Err(format!("{}: find_boundary({i}) = {} but the target str gives {} (text {text:?}): an error ending there would split a code point", $name, Source::find_boundary(w, i), Source::find_boundary(target, i)));
+            }
+            if Source::slice(w, i..j).map(|x| x.as_bytes().to_vec()) != Source::slice(target, i..j).map(|x| x.as_bytes().to_vec()) {
+                return Err(format!("{}: slice({i}..{j}) differs from the target str's (text {text:?})", $name));
+            }
+            if Source::read::<u8>(w, i) != Source::read::<u8>(target, i) || Source::read::<&[u8; 3]>(w, i) != Source::read::<&[u8; 3]>(target, i) {
+                return Err(format!("{}: read({i}) differs from the target str's (text {text:?})", $name));
+            }
+        }};
+    }
+    same!(&text, "String");
+    same!(&boxed, "Box<str>");
+    same!(&rc, "Rc<str>");
+    same!(refref, "&&str");
+    let bytes: &[u8] = text.as_bytes();
+    let vec: Vec<u8> = bytes.to_vec();
+    let bbox: Box<[u8]> = bytes.to_vec().into_boxed_slice();
+    macro_rules! same_b {
+        ($w:expr, $name:literal) => {{
+            let w = $w;
+            if Source::len(w) != Source::len(bytes) || Source::is_boundary(w, i) != Source::is_boundary(bytes, i) || Source::find_boundary(w, i) != Source::find_boundary(bytes, i) {
+                return Err(format!("{}: len / is_boundary({i}) / find_boundary({i}) differ from the target [u8]'s", $name));
+            }
+            if Source::slice(w, i..j) != Source::slice(bytes, i..j) || Source::read::<u8>(w, i) != Source::read::<u8>(bytes, i) {
+                return Err(format!("{}: slice({i}..{j}) / read({i}) differ from the target [u8]'s", $name));
+            }
+        }};
+    }
+    same_b!(&vec, "Vec<u8>");
+    same_b!(&bbox, "Box<[u8]>");
+    if let Some(run) = run {
+        run.eval(6);
+        run.count("deref_conformance_cases", 1);
+        if !text.is_ascii() && !text.is_char_boundary(i) {
+            run.nontrivial(model::fnv(text.as_bytes()) ^ i as u64);
+        }
+    }
+    Ok(())
+}
+
 pub fn main(args: &Args, cfg: &str) -> i32 {
     let mut run = Run::new(
         "C05",
         &args.tier,
         args.seed,
-        "Source::read: proptest over source kind (Box<str>, Box<[u8]>, String, Vec<u8>, Box<str> via Deref, &[u8] via Deref) x content x offset in {0..80, len+33-k, usize::MAX-k, usize::MAX-address(source)-k} x chunk types u8 and &[u8;N], N in {0,1,2,3,4,7,8,9,16,31,32,33}; oracle: Some(c) iff offset.checked_add(N) <= len, and then c == bytes[offset..offset+N]; exactly sized heap allocations (ASan configuration sees any over-read); evaluation = one read; non-trivial = distinct (source, offset) with the offset within 33 of len or within 64 of usize::MAX",
+        "Source::read: proptest over source kind (Box<str>, Box<[u8]>, String, Vec<u8>, Box<str> via Deref, &[u8] via Deref) x content x offset in {0..80, len+33-k, usize::MAX-k, usize::MAX-address(source)-k} x chunk types u8 and &[u8;N], N in {0,1,2,3,4,7,8,9,16,31,32,33}; oracle: Some(c) iff offset.checked_add(N) <= len, and then c == bytes[offset..offset+N]; exactly sized heap allocations (ASan configuration sees any over-read); plus Deref-source conformance: String, Box<str>, Rc<str>, &&str, Vec<u8>, Box<[u8]> answer len / is_boundary / find_boundary / slice / read like their target for every index within the source; evaluation = one read; non-trivial = distinct (source, offset) with the offset within 33 of len or within 64 of usize::MAX",
     );
     run.assumptions = vec![format!("build configuration {cfg}")];
     if let Some(path) = &args.replay {
         let v: serde_json::Value = serde_json::from_str(&std::fs::read_to_string(path).unwrap()).unwrap();
+        if let Some(t) = v["deref_text"].as_str() {
+            let c = (t.chars().collect::<Vec<char>>(), v["deref_i"].as_u64().unwrap_or(0) as u8, v["deref_j"].as_u64().unwrap_or(0) as u8);
+            return match deref_conformance(&c, None) {
+                Ok(()) => {
+                    println!("replay: no violation of C05 (Deref sources) in {cfg}");
+                    0
+                }
+                Err(m) => {
+                    println!("replay[{cfg}]: {m}");
+                    println!("VIOLATION property=C05 replay={}", path.display());
+                    1
+                }
+            };
+        }
         let case = Case { kind: v["kind"].as_u64().unwrap() as u8, content: unhex(v["content_hex"].as_str().unwrap()), offset: v["offset"].as_u64().unwrap() as usize, addr_rel: v["addr_rel"].as_u64().map(|x| x as usize) };
         return match interpret(&case, None) {
             Ok(()) => {
@@ -156,8 +232,31 @@ pub fn main(args: &Args, cfg: &str) -> i32 {
             }
         };
     }
+    if let Some(path) = &args.replay {
+        let _ = path;
+    }
     let cases = if args.cases > 0 { args.cases } else if args.thorough() { 600000 } else { 60000 };
     let res = drive(&case_strategy(), cases, args.seed ^ 0xC05, 2000, &mut run, |c, run| interpret(c, Some(run)));
+    // second part: a source reached through the Deref blanket impl (String, Box<str>, Rc<str>, &&str, Vec<u8>, Box<[u8]>)
+    // answers every Source method exactly like its target
+    let res = match res {
+        DriveResult::Pass => {
+            let strat = (proptest::collection::vec(prop_oneof![3 => proptest::sample::select(&['a', 'é', '€', '😀', 'ÿ', '\u{7ff}', '\u{ffff}', ' ', '0'][..]), 1 => any::<char>()], 0..8), any::<u8>(), any::<u8>());
+            match drive(&strat.boxed(), (cases / 20).max(200), args.seed ^ 0xC05D, 500, &mut run, |c, run| deref_conformance(c, Some(run))) {
+                DriveResult::Pass => DriveResult::Pass,
+                DriveResult::Fail(c) => {
+                    let msg = deref_conformance(&c, None).err().unwrap_or_default();
+                    run.violations = 1;
+                    let text: String = c.0.iter().collect();
+                    report_violation("C05", &args.replay_dir, &json!({"property": "C05", "tier": "A", "config": cfg, "deref_text": text, "deref_i": c.1, "deref_j": c.2, "findings": [{"property": "C05", "what": msg}]}));
+                    run.write_evidence(&args.evidence);
+                    return 1;
+                }
+                DriveResult::Abort(m) => DriveResult::Abort(m),
+            }
+        }
+        other => other,
+    };
     let code = match res {
         DriveResult::Pass => 0,
         DriveResult::Fail(case) => {
